@@ -418,6 +418,9 @@ def run_bane(filename, cfg, sched, ch, faults=None, fill="payload", ncpu=16, cor
             key = (frame.f_code.co_name, frame.f_lineno)
             if key not in task.seen_lines:
                 task.seen_lines.add(key)
+                if plan._eligible(task):
+                    task.tags.setdefault("first_lines", []).append(
+                        (task.tags.get("fl", 1) - 1, key[0], key[1], task.tags["line_nested"]))
                 return "yield"
             if stride and task.nline % stride == 0:
                 return "yield"
@@ -508,6 +511,8 @@ def run_bane(filename, cfg, sched, ch, faults=None, fill="payload", ncpu=16, cor
     res.barrier_stats = [dict(b.stats) for b in sim.barriers]
     res.worker_yields = {t.name: t.tags.get("fy", 0) for t in k.tasks}
     res.worker_lines = {t.name: t.tags.get("fl", 0) for t in k.tasks}
+    res.first_lines = {t.name: list(t.tags.get("first_lines", ())) for t in k.tasks}
+    res.yield_sites = {}
     res.ntasks = len(k.tasks)
     res.sites = dict(k.sites_seen)
     res.shm_ops = list(sandbox.ops)
